@@ -284,6 +284,23 @@ def _model_case(args):
                     # metric" in the relaxed sense the straight-through gradient follows: demand a
                     # change of at least 0.1% of the cost
                     if c1 - c0f > 1e-3 * max(1.0, abs(c0f)) and gi == 0.0 and old != 0.0:
+                        if method in ('mpsl', 'mpsc', 'odimo') and p.dim() >= 1 and p.shape[0] > 1:
+                            # a rounded hardware model evaluated at a *soft* mixture can move by a few cycles when any
+                            # coefficient moves, although the metric does not depend on this decision at all (NE16 1x1 /
+                            # linear latency ignores the weight bits): the element "raises the metric" only if the metric
+                            # differs between the decided alternatives of this quantizer
+                            decided = []
+                            with torch.no_grad():
+                                saved = p.detach().clone()
+                                for k_ in range(p.shape[0]):
+                                    p.copy_(saved)
+                                    p[k_] = p[k_] + 50.0
+                                    w(x)
+                                    decided.append(float(cost()))
+                                p.copy_(saved)
+                            w(x)
+                            if max(decided) - min(decided) <= 1e-6 * max(1.0, abs(c0f)):
+                                continue
                         problem('zero-gradient-on-live-element',
                                 'NAS parameter %d element %d: cost %.6g -> %.6g when the element moves by %g, gradient exactly 0'
                                 % (pi, i, c0f, c1, step))
@@ -390,6 +407,12 @@ def run(chk):
     problems = regen.regenerate_all()
     for f, err in problems or []:
         chk.proof_broken.append('translation of %s failed: %s' % (f, err))
+    chk.assumptions.append('"whose increase raises the metric" is judged by finite differences of at least 0.1% of the cost; for a '
+                           'weight-precision coefficient it additionally requires that the metric differs between the decided '
+                           '(one-hot) alternatives of that quantizer: a rounded hardware model evaluated at a soft mixture moves by '
+                           'a few cycles when any coefficient moves even where it ignores the weight bits (NE16 1x1 / linear)')
+    chk.assumptions.append('costs of SuperNet / MPS / ODiMO models are evaluated after a forward pass (the coefficients are sampled in '
+                           'forward; before the first forward, or after alpha was written without one, the cost is stale)')
     chk.prove()
     rng = chk.rng
     # ---- (a) layer-level value + gradient correspondence
